@@ -163,6 +163,7 @@ def grid_index_cases():
         for i in KEY_STRINGS:
             _case(out, prog(recv, "(%s in a)" % i), "i in a", nt)
             _case(out, prog(recv, "a.hasOwnProperty(%s)" % i), "hasOwnProperty", nt)
+            _case(out, prog(recv, "JSON.stringify(Object.getOwnPropertyDescriptor(a, %s))" % i), "getOwnPropertyDescriptor", nt)
         _case(out, prog(recv, "a.length"), "length read", nt)
     return out
 
@@ -412,6 +413,8 @@ def typed_index_cases():
         for i in KEY_STRINGS:
             _case(out, "var t = new %s([1, 2, 3]); __out(t[%s]); var r; try { r = (t[%s] = 7) } %s __out(r); __out(t); t[%s]"
                   % (k, i, i, CATCH, i), "t[key]", True, kind=k)
+            _case(out, "var t = new %s([1, 2, 3]); __out(%s in t); __out(Object.keys(t)); JSON.stringify(Object.getOwnPropertyDescriptor(t, %s))"
+                  % (k, i, i), "t own key", True, kind=k)
         for i in IDX:
             _case(out, "var t = new %s([1, 2, 3]); t[%s]" % (k, i), "t[i] read", True, kind=k)
             _case(out, "var t = new %s([1, 2, 3]); var r; try { r = (t[%s] = 7) } %s __out(r); __out(t.length); t"
